@@ -111,16 +111,19 @@ PROPS = {
     },
     "C02": {"module": "StrettoModel.Props.C02", "jobs": [cache_job(r"\.(store|ret|callbacks|buffer|clear)$", extra=["--collisions", "1", "--w-clear", "5"])],
             "branches": ["get.hit", "get.miss", "get.conflict_miss", "getmut.hit", "insert.update", "insert.new_over_resident", "remove.resident", "p.clear.buf1", "delete.other_conflict"],
+            "oracles": [{"name": "live-remove-full", "run": live_oracle("C02", ["remove_full", "async_remove_full"])}],
             "assumptions": CACHE_ASSUME + ["values are opaque ids: the model carries a value id where the code carries a V; that the code hands back the V it stored under that id (no aliasing inside a shard's HashMap) is std's contract and is sampled by the correspondence (every returned value is compared)",
                                            "concurrent lookups during an in-place update are serialised by the shard lock; that atomicity (never a mixture of two values) is the RwLock's contract, not a theorem here"]},
     "C04": {"module": "StrettoModel.Props.C04", "jobs": [cache_job(r"\.(store|expiry|policy|ret|callbacks|buffer|len)$", extra=["--w-ttl", "50"])],
             "branches": ["padd.room", "padd.evicting", "padd.rejected", "insert.update", "insert.dropped", "remove.resident", "tick.reclaimed", "tick.idle"],
-            "assumptions": CACHE_ASSUME + ["the theorems are per-step squares (an accepted insert with room is applied and retrievable; updates and removes apply at once; nothing is swept before its deadline); their composition over arbitrary histories is carried by the run-time no-loss monitor, which tracks capacity pressure and collisions from the implementation's own history"]},
+            "assumptions": CACHE_ASSUME + ["refines_ttl_map composes the per-operation squares over sequential histories (each operation taken to quiescence); for histories with several client calls in flight the composition is carried by the run-time no-loss monitor, which tracks capacity pressure (latest asked cost per charged key at quiescence, per-key peak while writes are in flight) and collisions from the implementation's own history",
+                                           "guards of the tick square (visited keys cover the due buckets; TickOk) are checked at run time by the driver"]},
     "C06": {"module": "StrettoModel.Props.C06",
             "jobs": [cache_job(r"\.(store|policy|callbacks|len|buffer)$", extra=["--collisions", "1"], quick_lives=14),
                      cache_job(r"\.(store|policy|callbacks|len|buffer)$", name="cache-plain", quick_lives=14)],
             "branches": ["padd.evicting", "padd.rejected", "padd.already_charged", "delete.resident", "delete.other_conflict", "delete.absent",
                          "tick.reclaimed", "p.clear.buf1", "remove.resident", "remove.buffer_full", "insert.split"],
+            "oracles": [{"name": "live-remove-full", "run": live_oracle("C06", ["remove_full", "async_remove_full"])}],
             "assumptions": CACHE_ASSUME + ["guards of the theorem checked at run time on the implementation's observations: VictimsOk (no sampled victim is the incoming key) and TickOk (conflict hashes filed in due buckets pass the store's check)"]},
     "C08": {"module": "StrettoModel.Props.C08",
             "jobs": [cache_job(r"\.(store|callbacks|buffer|ret)$", extra=["--collisions", "1"]), cache_job(r"\.(store|callbacks|buffer|ret)$", name="cache-plain", extra=["--w-clear", "5"])],
@@ -130,12 +133,13 @@ PROPS = {
                                            "the run theorems assume C06's guards on oracle inputs (VictimsOk, TickOk), checked at run time by the driver on the implementation's observations",
                                            "the callback log of the model is the sequence of CacheCallback calls the recording callback of the harness saw; it is compared step by step"]},
     "C10": {"module": "StrettoModel.Props.C10", "jobs": [cache_job(r"\.(buffer|ret|wait|clear|close|closed)$", extra=["--w-wait", "10", "--w-close", "3", "--w-clear", "5"])],
-            "oracles": [{"name": "live-barrier", "run": live_oracle("C10", ["barrier", "protocol_storm"])}], "assumptions": CACHE_ASSUME},
+            "oracles": [{"name": "live-barrier", "run": live_oracle("C10", ["barrier", "protocol_storm", "async_barrier", "remove_full", "async_remove_full"])}], "assumptions": CACHE_ASSUME},
     "C15": {"module": "StrettoModel.Props.C15", "jobs": [cache_job(r"\.(ring|metrics|ret|batch)$")],
             "branches": ["ring.flush.kept", "ring.flush.dropped_or_closed", "w.items", "get.hit", "get.miss", "getmut.hit"],
             "assumptions": CACHE_ASSUME + ["what the policy worker does with a kept batch is TinyLFU.increments, the subject of C13; the stepped harness parks the worker so the bounded queue does fill up"]},
     "C19": {"module": "StrettoModel.Props.C19", "jobs": [cache_job(r".*", quick_lives=8)],
-            "oracles": [{"name": "flavour-differential", "run": flavour_oracle}],
+            "oracles": [{"name": "flavour-differential", "run": flavour_oracle},
+                        {"name": "live-async", "run": live_oracle("C19", ["async_barrier", "async_remove_full"])}],
             "assumptions": CACHE_ASSUME + ["AsyncCache is tied to the model only through Cache: the same scripted histories (quiescence after every operation, virtual clock, equal sketch seeds) are run against both and every observable compared; executors sampled: thread-per-task, tokio multi-thread, tokio current-thread",
                                            "the gets_kept / gets_dropped split and the queue length legitimately differ (bounded 3 vs unbounded) and are masked; their sum is compared"]},
     "C17": {"module": "StrettoModel.Props.C17", "jobs": [cache_job(r"\.(metrics|life|policy|ret)$", extra=["--w-clear", "4"]), policy_job(r"^pol\..*(metrics|state)$"),
@@ -195,8 +199,8 @@ PROPS = {
     },
     "C07": {
         "module": "StrettoModel.Props.C07",
-        "jobs": [policy_job(r"^pol\.(add|add\.state)$")],
-        "branches": POLICY_BRANCHES,
+        "jobs": [policy_job(r"^pol\.(add|add\.state)$"), cache_job(r"^p\.item\.(policy|callbacks|store|len)$", quick_lives=14)],
+        "branches": POLICY_BRANCHES + ["padd.evicting", "padd.rejected", "padd.room"],
         "assumptions": [
             "popularity estimates are an arbitrary function in the theorems; the implementation's values are observed inside the loop through the cfg-gated observer (estimates of every sample entry and of the newcomer)",
             "what fill_sample appends at each iteration is an oracle input (HashMap iteration order), checked against the guard validRefill by the driver",
